@@ -156,8 +156,8 @@ func (c *Check) compareRec(g *Graph, r rec, res *Result) {
 		res.add("unexpected parent row", "record #%d is not a live row of %s", seq, c.Dir.Table)
 		return
 	}
-	if l.Zero {
-		return // gorm convention: an all-zero key is "no key" — outside the property
+	if l.Zero && c.Shape == shPrefilled {
+		return // an all-zero key is "no key": the preload does nothing, not even clearing
 	}
 	for _, rel := range c.Dir.Rels {
 		obs := rels[rel]
@@ -174,6 +174,13 @@ func (c *Check) compareRec(g *Graph, r rec, res *Result) {
 			continue
 		}
 		want := c.Dir.Want(g, seq, rel, exp.Mode)
+		if l.Zero && len(want) > 0 {
+			// gorm convention: an all-zero key is "no key" (a preload skips it, a
+			// SQL join matches it) — don't care. When the reference join is empty
+			// as well (NULL keys, no row with the zero key) both readings agree
+			// and the relation must be empty.
+			continue
+		}
 		if c.Dir.One[rel] {
 			switch {
 			case len(want) == 0 && len(obs) > 0:
@@ -419,7 +426,7 @@ func (c *Check) compareJoinRows(g *Graph, l Left, rows []rec, single bool, res *
 			got = append(got, "none")
 		}
 	}
-	if l.Zero {
+	if l.Zero && len(want) > 0 {
 		return
 	}
 	sort.Strings(got)
